@@ -19,8 +19,13 @@
      acknowledge a term-T heartbeat: the per-node half of that is C08_heartbeat_ack_only_current_term
      below, the cluster half is not proved).  None of these cross-node facts is proved here.
    * That request contexts are unique is an assumption of the property about the APPLICATION;
-     nothing below needs it (a repeated pending context is simply not recorded twice,
-     C08_read_only_spec_add), and nothing below proves what goes wrong without it.
+     nothing below needs it and nothing below proves what goes wrong without it.  What the
+     theorems do show about a reused context: while it is still pending the second request is
+     not recorded at all (C08_read_only_spec_add: only the FIRST request with that context is
+     ever answered), and the heartbeat round of a request is identified by its context only
+     (C08_readindex_served_needs_quorum counts ANY same-term MsgHeartbeatResponse of a tracked
+     peer carrying the context), so an ack still in flight from an earlier round with the same
+     context would count for the later request: this is where uniqueness is indispensable.
    * Heartbeats with m_term = 0: Raft::step treats a term-0 message as local, so a follower
      acknowledges a term-0 MsgHeartbeat whatever its own term (visible in the disjunct
      "m_term m = 0" of C08_heartbeat_ack_only_current_term).  Real leaders never send one (send stamps the
